@@ -1786,8 +1786,136 @@ func helperRules(c *core.Ctx, codecs map[string]method05) {
 		} else {
 			problems = append(problems, "no UTF-16 unit is read")
 		}
-		c.Decide(len(problems) == 0, "C05-HELPERS", key, pos, "for each unit n of utf16.Encode([]rune(in)): octets n[15:8], n[7:0]", strings.Join(dedup(problems), "; "))
+		problems = append(problems, helperResult(fn)...)
+		c.Decide(len(problems) == 0, "C05-HELPERS", key, pos, "for each unit n of utf16.Encode([]rune(in)): octets n[15:8], n[7:0]; the result is the text of the octets collected", strings.Join(dedup(problems), "; "))
 	}
+}
+
+// helperResult: what a UCS-2 helper returns is the text of the octets it collected. With a buffer (x.WriteByte in the
+// loop, x.String() as the result): String is taken after the loop and before anything else touches the buffer; if the
+// buffer comes from a pool, it is Reset after String and before it is Put back (the next Get finds it empty - the
+// helper starts writing at once). With an append accumulator or an indexed slice: the result is string(<that slice>).
+func helperResult(fn *ssa.Function) []string {
+	var problems []string
+	before := func(a, b ssa.Instruction) bool {
+		if a.Block() == b.Block() {
+			for _, ins := range a.Block().Instrs {
+				if ins == a {
+					return true
+				}
+				if ins == b {
+					return false
+				}
+			}
+		}
+		return a.Block().Dominates(b.Block())
+	}
+	var buf ssa.Value
+	var writes, others []*ssa.Call
+	var str, reset, put *ssa.Call
+	for _, b := range fn.Blocks {
+		for _, ins := range b.Instrs {
+			call, ok := ins.(*ssa.Call)
+			if !ok || call.Call.IsInvoke() || call.Call.StaticCallee() == nil || call.Call.StaticCallee().Signature.Recv() == nil || len(call.Call.Args) == 0 {
+				continue
+			}
+			n := call.Call.StaticCallee().Name()
+			if n == "WriteByte" || n == "Write" {
+				if buf == nil {
+					buf = call.Call.Args[0]
+				}
+				if call.Call.Args[0] == buf {
+					writes = append(writes, call)
+				}
+			}
+		}
+	}
+	if buf == nil {
+		// append / indexed form: every result is string(slice) of a slice built in the function
+		for _, b := range fn.Blocks {
+			ret, ok := b.Instrs[len(b.Instrs)-1].(*ssa.Return)
+			if !ok || len(ret.Results) == 0 {
+				continue
+			}
+			if emptyFastPath(fn, b, ret.Results[0]) {
+				continue
+			}
+			cv, isCv := ret.Results[0].(*ssa.Convert)
+			if !isCv {
+				problems = append(problems, "the result is not string(<octets collected>)")
+				continue
+			}
+			var roots []ssa.Value
+			rootsOf(cv.X, map[ssa.Value]bool{}, &roots)
+			for _, r := range roots {
+				if _, isMake := r.(*ssa.MakeSlice); !isMake {
+					problems = append(problems, "the result is not string(<octets collected>)")
+				}
+			}
+		}
+		return problems
+	}
+	for _, b := range fn.Blocks {
+		for _, ins := range b.Instrs {
+			call, ok := ins.(*ssa.Call)
+			if !ok {
+				continue
+			}
+			if cal := call.Call.StaticCallee(); cal != nil && cal.Signature.Recv() != nil && len(call.Call.Args) > 0 && call.Call.Args[0] == buf {
+				switch cal.Name() {
+				case "WriteByte", "Write":
+				case "String":
+					str = call
+				case "Reset":
+					reset = call
+				case "Len", "Cap":
+				default:
+					others = append(others, call)
+				}
+				continue
+			}
+			// the buffer handed to something else: the pool's Put, or an escape
+			for _, a := range call.Call.Args {
+				if a == buf {
+					if cal := call.Call.StaticCallee(); cal != nil && cal.Name() == "Put" {
+						put = call
+					} else {
+						others = append(others, call)
+					}
+				}
+			}
+		}
+	}
+	if str == nil {
+		return append(problems, "the buffer's String() is never taken")
+	}
+	for _, o := range others {
+		problems = append(problems, "the buffer is also used by "+o.String())
+	}
+	for _, w := range writes {
+		if !before(w, str) && !reaches(w.Block(), str.Block()) {
+			problems = append(problems, "an octet is written after the result was taken")
+		}
+		if before(str, w) {
+			problems = append(problems, "an octet is written after the result was taken")
+		}
+	}
+	if reset != nil && !before(str, reset) {
+		problems = append(problems, "the buffer is reset before its text is taken: the helper returns the empty string")
+	}
+	for _, b := range fn.Blocks {
+		if ret, ok := b.Instrs[len(b.Instrs)-1].(*ssa.Return); ok {
+			if len(ret.Results) == 0 || ret.Results[0] != ssa.Value(str) {
+				problems = append(problems, "the result is not the buffer's String()")
+			}
+		}
+	}
+	if _, fromPool := buf.(*ssa.Call); fromPool && put != nil {
+		if reset == nil || !before(reset, put) {
+			problems = append(problems, "the pooled buffer is put back without a Reset: the next call starts with this call's octets in it")
+		}
+	}
+	return problems
 }
 
 func findPkg(prog *load.Program, path string) *types.Package {
@@ -1871,4 +1999,42 @@ func runC05(c *core.Ctx) {
 			c.Emit(core.Obligation{Rule: "C05-FIXTURE", Key: r, Verdict: core.Undecided, Kind: "analyser-rot", Detail: "the positive fixture (mismatched charmaps, discarded error, replacing encoder) is NOT flagged"})
 		}
 	}
+}
+
+// emptyFastPath: `if in == "" { return "" }` (or len(in) == 0) - the empty text has no units and no octets.
+func emptyFastPath(fn *ssa.Function, b *ssa.BasicBlock, res ssa.Value) bool {
+	k, ok := res.(*ssa.Const)
+	if !ok || k.Value == nil || k.Value.Kind() != constant.String || constant.StringVal(k.Value) != "" {
+		return false
+	}
+	if len(b.Preds) != 1 || len(fn.Params) == 0 {
+		return false
+	}
+	pred := b.Preds[0]
+	ifi, ok := pred.Instrs[len(pred.Instrs)-1].(*ssa.If)
+	if !ok {
+		return false
+	}
+	cmp, ok := ifi.Cond.(*ssa.BinOp)
+	if !ok {
+		return false
+	}
+	in := ssa.Value(fn.Params[0])
+	isEmptyTest := false
+	if c2, isK := cmp.Y.(*ssa.Const); isK && c2.Value != nil {
+		switch {
+		case cmp.X == in && c2.Value.Kind() == constant.String && constant.StringVal(c2.Value) == "":
+			isEmptyTest = true
+		case c2.Value.Kind() == constant.Int && constant.Sign(c2.Value) == 0:
+			if call, isC := cmp.X.(*ssa.Call); isC && len(call.Call.Args) == 1 && call.Call.Args[0] == in {
+				if bi, isB := call.Call.Value.(*ssa.Builtin); isB && bi.Name() == "len" {
+					isEmptyTest = true
+				}
+			}
+		}
+	}
+	if !isEmptyTest {
+		return false
+	}
+	return (cmp.Op == token.EQL && pred.Succs[0] == b) || (cmp.Op == token.NEQ && pred.Succs[1] == b)
 }
